@@ -89,6 +89,10 @@ func (s *Server) handleConnection(conn net.Conn) {
 		}
 	}
 
+	// the response has to fit into a single message part, otherwise clients can't decode it
+	if maxlen := MaxRequestLength - len("NO "); len(resp.Message) > maxlen {
+		resp.Message = resp.Message[:maxlen]
+	}
 	resp.Encode(conn) //nolint:errcheck
 }
 
